@@ -101,6 +101,12 @@ func c02Shapes() []hunkShape2 {
 		kp2 := append(append([]ref.PE{}, kp[:len(kp)-1]...), ref.K("v"), ref.SetPE())
 		out = append(out, hunkShape2{H: ref.Hunk{Path: kp2, Remove: []V{1.0}, Add: []V{2.0, 3.0}}, Class: "keyed"})
 	}
+	// keyed multiset path elements ([{"id":1}]): the reader accepts them, the renderer prints them
+	for _, pay := range c02Payload {
+		mk := ref.PE{Kind: "multisetkeys", Keys: map[string]V{"id": pay[0]}}
+		out = append(out, hunkShape2{H: ref.Hunk{Path: []ref.PE{mk, ref.K("v")}, Remove: []V{1.0}, Add: []V{2.0}}, Class: "keyed"})
+		out = append(out, hunkShape2{H: ref.Hunk{Path: []ref.PE{ref.K("a"), mk}, Remove: []V{pay[1]}, Add: []V{pay[2], pay[0]}}, Class: "keyed"})
+	}
 	mergePaths := [][]ref.PE{{ref.K("a")}, {ref.K("a"), ref.K("b")}, {}, {ref.K("")}}
 	for pi, p := range mergePaths {
 		adds := []V{ref.Void{}, 1.0, "a", map[string]interface{}{}, []interface{}{1.0, nil}}
@@ -221,11 +227,13 @@ func init() {
 			}
 			return m
 		},
-		Enum:     enumC02,
-		Run:      runC02,
-		Required: func(string) []string { return []string{"hunks/single", "hunks/pair", "hunks/triple", "string/", "diff/multi-hunk", "diff/single-hunk"} },
-		Assume:   []string{"well-formedness of hand-built hunks is the grammar in DESIGN.md section 6 (C02), fixed in the model", "sequences are strict hunks followed by merge hunks (metadata is inherited forward in the text format)"},
-		Budget:   budget(5*time.Minute, 45*time.Minute),
+		Enum: enumC02,
+		Run:  runC02,
+		Required: func(string) []string {
+			return []string{"hunks/single", "hunks/pair", "hunks/triple", "string/", "diff/multi-hunk", "diff/single-hunk"}
+		},
+		Assume: []string{"well-formedness of hand-built hunks is the grammar in DESIGN.md section 6 (C02), fixed in the model", "sequences are strict hunks followed by merge hunks (metadata is inherited forward in the text format)"},
+		Budget: budget(5*time.Minute, 45*time.Minute),
 	})
 }
 
